@@ -8,7 +8,7 @@ use super::large::LargeInput;
 
 /// atoms as byte strings (valid and invalid UTF-8)
 pub fn atoms() -> Vec<Vec<u8>> {
-    let valid: [&str; 52] = [
+    let valid: [&str; 59] = [
         "a", "Zebra", "foo_bar", "x1", "42", "3.14", "can't", "e\u{301}", "\u{e9}", "\u{df}",
         " ", "  ", "\t", "\u{a0}", "\u{2003}", "\u{3000}", "\u{200b}", "\u{feff}",
         "\n", "\r", "\r\n", "\n\r", "\u{b}", "\u{c}", "\u{85}", "\u{2028}", "\u{2029}",
@@ -16,6 +16,9 @@ pub fn atoms() -> Vec<Vec<u8>> {
         "\u{43f}\u{440}\u{438}", "\u{4e2d}\u{6587}", "\u{627}\u{644}", "\u{915}\u{94d}\u{937}", "\u{e01}\u{e33}",
         "\u{1f600}", "\u{1f468}\u{200d}\u{1f469}\u{200d}\u{1f467}", "\u{1f1e6}\u{1f1f9}", "\u{1f1e6}", "\u{2764}\u{fe0f}",
         "\u{1f44d}\u{1f3fd}", "a\u{300}\u{301}\u{302}\u{303}", "\u{1100}\u{1161}\u{11a8}", "\u{10ffff}", "\u{0}",
+        // characters a decoder or a fast path is likely to treat specially: the replacement
+        // character itself, noncharacters, the code points around the surrogate gap, DEL, ESC
+        "\u{fffd}", "\u{fffe}", "\u{ffff}", "\u{d7ff}", "\u{e000}", "\u{7f}", "\u{1b}",
     ];
     let invalid: [&[u8]; 14] = [
         &[0xFF],
